@@ -320,6 +320,22 @@ theorem Cmp.lookupKey_pn_isSome (kk : Key) (bs : List (GoVal × GoVal)) :
     (lookupKey kk (prepKVs (normKVs false bs))).isSome = (lookupKey kk (prepKVs bs)).isSome := by
   rcases lookupKey_pn kk bs with ⟨h1, h2⟩ | ⟨w, h1, h2⟩ <;> rw [h1, h2] <;> rfl
 
+theorem Cmp.mapFind_pn_isSome (k : GoVal) : ∀ bs : List (GoVal × GoVal),
+    (mapFind (prepKVs (normKVs false bs)) k).isSome = (mapFind (prepKVs bs) k).isSome
+  | [] => rfl
+  | (k0, v) :: r => by
+    have ih := Cmp.mapFind_pn_isSome k r
+    unfold mapFind at ih ⊢
+    simp only [normKVs, prepKVs, List.find?_cons]
+    cases ifaceEq (prep k0) k == some true with
+    | true => rfl
+    | false => exact ih
+
+/-- a slice, array or map needle converts to no key of any type -/
+theorem Cmp.convertKey_container {e : GoVal} (h : rigidHead e = false) (hd : noDrop e = true) (kt : Ty) :
+    convertKey kt e = some none := by
+  cases e <;> simp [rigidHead, noDrop] at h hd <;> cases kt <;> simp [convertKey]
+
 /-- the haystack may be normalised -/
 theorem Cmp.containsW_pn_left (u e : GoVal) :
     containsW (wrapOf (prep (u.norm false))) e = containsW (wrapOf (prep u)) e := by
@@ -334,14 +350,13 @@ theorem Cmp.containsW_pn_left (u e : GoVal) :
     | true => rw [norm_of_isRec hr]
     | false =>
       rw [norm_map_nonrec hr]
-      simp only [prep, wrapOf, valueOf, containsW, mapView, bind, Res.bind, mapIndex]
+      simp only [prep, wrapOf, valueOf, containsW, mapView, bind, Res.bind]
       split
       · rfl
       · split
-        · cases toKey e with
-          | none => rfl
-          | some kk => simp only [lookupKey_pn_isSome]
         · rfl
+        · rfl
+        · simp only [mapFind_pn_isSome]
   | _ => simp [norm]
 
 theorem Cmp.safeEqual_slice (t : Ty) (ys : List GoVal) (k : GoVal) : safeEqual (.slice t ys) k = .ok false := by
@@ -381,7 +396,8 @@ theorem Cmp.containsW_pn_right (w : Wrapper) (e : GoVal) :
     | array v => left; simp only [containsW]; have := containsList_pn_right (.slice t ys); simp only [norm, prep] at this; simp only [this]
     | mapSlice kvs => left; simp only [containsW, mapSliceContains_false (safeEqual_slice _ _)]
     | string v => cases v <;> simp [containsW, sprintNeedle]
-    | _ => simp [containsW, GoVal.isNil, keyTyOf]
+    | map v => left; simp only [containsW, GoVal.isNil, Cmp.convertKey_container (e := GoVal.slice _ _) rfl rfl]
+    | _ => simp [containsW, GoVal.isNil]
   | array t ys =>
     simp only [norm, prep]
     cases w with
@@ -392,7 +408,8 @@ theorem Cmp.containsW_pn_right (w : Wrapper) (e : GoVal) :
       · exact .inl h
       · exact .inr ⟨m, h⟩
     | string v => cases v <;> simp [containsW, sprintNeedle]
-    | _ => simp [containsW, GoVal.isNil, keyTyOf]
+    | map v => left; simp only [containsW, GoVal.isNil, Cmp.convertKey_container (e := GoVal.slice _ _) rfl rfl, Cmp.convertKey_container (e := GoVal.array _ _) rfl rfl]
+    | _ => simp [containsW, GoVal.isNil]
   | map kt vt kvs =>
     cases hr : isRec (.map kt vt kvs) with
     | true => rw [norm_of_isRec hr]; exact .inl rfl
@@ -403,7 +420,8 @@ theorem Cmp.containsW_pn_right (w : Wrapper) (e : GoVal) :
       | array v => left; simp only [containsW]; have := containsList_pn_right (.map kt vt kvs); rw [norm_map_nonrec hr] at this; simp only [prep] at this; simp only [this]
       | mapSlice kvs' => left; simp only [containsW, mapSliceContains_false (safeEqual_map _ _ _)]
       | string v => cases v <;> simp [containsW, sprintNeedle]
-      | _ => simp [containsW, GoVal.isNil, keyTyOf]
+      | map v => left; simp only [containsW, GoVal.isNil, Cmp.convertKey_container (e := GoVal.map _ _ _) rfl rfl]
+      | _ => simp [containsW, GoVal.isNil]
   | _ => simp [norm]
 
 theorem Cmp.opContains_prep (a b : GoVal) :
